@@ -15,6 +15,10 @@ Further cells let the user thread call shutdown_write() / close() at that switch
 WINDOW_ADJUST / EOF / CLOSE / data for the same channel is in flight (lock discipline: gen/c11.py lists every
 send reachable inside a `self.lock` critical section of Channel / Transport; the model's step_gen makes the
 transport thread block behind a user thread that parks at the gate with the lock).
+Two more schedules: a user thread stopped between the gate and the write (switch point in the recording
+packetizer before a user thread's write) while the exchange starts, and held traffic released in two segments
+more than a read timeout apart, the first ending inside the first cipher block (the model has no notion of
+segmentation: such cells must simply be transparent).
 Oracle (independent of the model and of the translator): no message >= 50 between A's KEXINIT and A's NEWKEYS,
 the transport thread never enters the gate while the flag is clear and never sits on a channel / transport
 lock inside a handler while the exchange is pending (two stack samples of the transport thread), the re-exchange completes, both ends stay up, M's
@@ -142,7 +146,19 @@ class Net:
         with self.lock:
             return len(self.held)
 
-    def release(self):
+    def release(self, split=0, gap=0.0):
+        """Deliver what was held.  split=k: the first k bytes now, the rest (and whatever arrived meanwhile) after
+        `gap` seconds - a packet that reaches the reader in two TCP segments."""
+        if split:
+            with self.lock:
+                d = bytes(self.held[:split])
+                del self.held[:split]
+                if d:
+                    try:
+                        self.ar.send(d)
+                    except Exception:
+                        pass
+            time.sleep(gap)
         with self.lock:
             d, self.held = bytes(self.held), bytearray()
             self.holding = False
@@ -178,6 +194,11 @@ def make_classes():
 
         def send_message(self, data):
             t = data.asbytes()[0]
+            if t >= 50 and not isinstance(threading.current_thread(), Transport):
+                # switch point: a user thread is past the gate and about to write
+                hook = self.__dict__.pop("c11_presend_hook", None)
+                if hook is not None:
+                    hook()
             with self.c11_lock:
                 self.c11_log.append(("out", t, threading.current_thread()))
                 r = super().send_message(data)
@@ -464,14 +485,14 @@ def tt_lock_frame(t):
     return None
 
 
-def run_cell(role, name, init, rng, user_send=True, op="send"):
+def run_cell(role, name, init, rng, user_send=True, op="send", switch="kexinit", split=0):
     """One held-message cell.  Returns the observation dict (no judgement here)."""
     _, ptype, replies, _ = CELL[name]
     if op == "close" and name == "close":
         replies = False     # the channel is already closed locally: _close_internal has nothing left to send
     s = Sess(role)
     obs = {"role": role, "cell": name, "init": init, "ptype": ptype, "replies": replies, "op": op,
-           "tt_lock_block": None}
+           "tt_lock_block": None, "switch": switch, "split": split}
     try:
         A, B = s.A, s.B
         if name == "keepalive-tick":
@@ -530,7 +551,24 @@ def run_cell(role, name, init, rng, user_send=True, op="send"):
             finally:
                 hook_done.set()
 
-        if user_send and can_send:
+        if switch == "presend" and user_send and can_send:
+            # schedule: [user thread: gate passed (flag set), stopped just before the write] -> [A starts the
+            # exchange] -> [user thread resumes once KEXINIT is out, or after 0.5 s when the KEXINIT sender is (as it
+            # should be) held off by clear_to_send_lock until the user's write is done]
+            at_write = threading.Event()
+
+            def presend():
+                at_write.set()
+                _wait(lambda: 20 in [t for t, _ in s.out_trace()], 0.5)
+
+            A.packetizer.c11_presend_hook = presend
+            hk["started"] = True
+            hook_done.set()
+            ut.start()
+            threads.append(ut)
+            if not at_write.wait(WATCH):
+                raise RuntimeError("the user thread did not reach the write")
+        elif user_send and can_send:
             A.packetizer.c11_kexinit_hook = at_kexinit
         if init == "explicit":
             threads.append(threading.Thread(target=renegotiate, daemon=True))
@@ -551,7 +589,7 @@ def run_cell(role, name, init, rng, user_send=True, op="send"):
             _wait(lambda: any(not tt for t, tt, _, _ in s.gate()), 3.0)
         if name == "keepalive-tick":
             time.sleep(0.7)
-        s.net.release()
+        s.net.release(split=split, gap=0.25 if split else 0.0)
         # wait for the end of the story: exchange finished, or a party died
         def finished():
             return (21 in s.in_trace() and 21 in [t for t, _ in s.out_trace()]) or not A.is_active() \
@@ -600,6 +638,9 @@ def run_cell(role, name, init, rng, user_send=True, op="send"):
                 ut_types = USER_TYPES[op]
                 user_out = [(i, t) for i, (t, tt) in enumerate(tr) if t in ut_types and not tt]
                 obs["user_after_newkeys"] = bool(user_out) and all(i > k21 for i, _ in user_out)
+                if switch == "presend":
+                    k20 = obs["out"].index(20)      # a send already past the gate may (only) precede own KEXINIT
+                    obs["user_after_newkeys"] = bool(user_out) and all(i < k20 or i > k21 for i, _ in user_out)
         return obs
     finally:
         s.close()
@@ -621,7 +662,8 @@ def canonical(obs):
 
 def judge(ctx, obs):
     """The property stated directly on the observation; every failure carries the key of its call site."""
-    case = {"role": obs["role"], "cell": obs["cell"], "init": obs["init"], "op": obs.get("op", "send")}
+    case = {"role": obs["role"], "cell": obs["cell"], "init": obs["init"], "op": obs.get("op", "send"),
+            "switch": obs.get("switch", "kexinit"), "split": obs.get("split", 0)}
     p = obs["ptype"]
     if obs.get("tt_lock_block"):
         ctx.fail("transport-thread-blocked-on-lock-held-across-gated-send",
@@ -650,7 +692,10 @@ def judge(ctx, obs):
                  observed={"gated_type": t, "a_alive": obs["a_alive"], "a_exc": obs["a_exc"], "out": obs["out"]})
     if not obs["offenders"] and not obs["tt_waited"]:
         if not (obs["rekey_done"] and obs["a_alive"] and obs["b_alive"]) or obs["renegotiate"] not in ("ok", "n/a"):
-            ctx.fail("rekey-stalled", "the re-exchange did not complete although nothing illegal was sent",
+            ctx.fail("session-dies-on-segmented-delivery-during-rekey" if obs.get("split") else "rekey-stalled",
+                     "an inbound packet delivered in two pieces more than a read timeout apart during the re-exchange "
+                     "desynchronised the stream / killed the session" if obs.get("split") else
+                     "the re-exchange did not complete although nothing illegal was sent",
                      case=case, expected="NEWKEYS both ways, both ends active",
                      observed={k: obs[k] for k in ("out", "rekey_done", "a_alive", "b_alive", "a_exc", "b_exc",
                                                    "renegotiate")})
@@ -687,11 +732,11 @@ def _gen_tables(repo):
     return mod.tables(repo)
 
 
-def guarded_cell(ctx, role, name, init, rng, op="send"):
+def guarded_cell(ctx, role, name, init, rng, op="send", switch="kexinit", split=0):
     box = {}
 
     def go():
-        box["obs"] = run_cell(role, name, init, rng, op=op)
+        box["obs"] = run_cell(role, name, init, rng, op=op, switch=switch, split=split)
 
     for attempt in (0, 1):
         st, v = with_watchdog(go, 60)
@@ -704,7 +749,8 @@ def guarded_cell(ctx, role, name, init, rng, op="send"):
         if attempt == 1:
             if st == "exc":
                 raise v
-            ctx.fail("cell-hang", "a cell did not finish", case={"role": role, "cell": name, "init": init, "op": op})
+            ctx.fail("cell-hang", "a cell did not finish", case={"role": role, "cell": name, "init": init, "op": op,
+                                                                         "switch": switch, "split": split})
     return None
 
 
@@ -718,7 +764,9 @@ def run(ctx):
                 "payloads, request names and sizes from the seeded generator; a user thread sends channel data "
                 "at a switch point right after own KEXINIT is written; 12 further cells (24 thorough) where that user "
                 "thread calls shutdown_write() / close() while the peer's WINDOW_ADJUST / EOF / CLOSE / data for the "
-                "channel is in flight; quick tier takes every kind once per role with the initiation mode drawn from "
+                "channel is in flight; 4 cells with the user thread stopped between gate and write when the exchange "
+                "starts; 6 cells (12 thorough) where the held traffic arrives in two segments 0.25 s apart split at "
+                "byte 1..7 (thorough also 9/17/33); quick tier takes every kind once per role with the initiation mode drawn from "
                 "the seed, thorough takes all combinations twice; a cell is non-trivial when something was in "
                 "flight or a user send was queued")
     ctx.trusted += ["gen/c11.py (AST call-graph walk, fail-closed) and the identification of atomic steps of the LTS "
@@ -749,6 +797,16 @@ def run(ctx):
             for role in ("client", "server"):
                 for init in (("explicit", "threshold") if ctx.thorough else (rng.choice(["explicit", "threshold"]),)):
                     plan.append((role, name, init, op))
+    plan = [x + ("kexinit", 0) for x in plan]
+    for role in ("client", "server"):
+        # a user thread already past the gate when the exchange starts (both initiations)
+        for init in ("explicit", "threshold"):
+            plan.append((role, rng.choice(["data", "nothing", "window-adjust"]), init, "send", "presend", 0))
+        # the held traffic reaches A in two segments, the first one ending inside the first cipher block
+        for name in ("data", "window-adjust", "nothing"):
+            for init in (("threshold", "explicit") if ctx.thorough else ("threshold",)):
+                k = rng.randrange(1, 8) if not ctx.thorough or rng.random() < 0.7 else rng.choice([9, 17, 33])
+                plan.append((role, name, init, "send", "kexinit", k))
     # which user operations send while holding self.lock, according to the translator (none on a sound tree)
     locked_ops = set()
     try:
@@ -758,12 +816,24 @@ def run(ctx):
         ctx.notes.append("translator unavailable for the lock cross-check: %r" % (e,))
     results = []
     t0 = time.time()
-    for role, name, init, op in plan:
-        obs = guarded_cell(ctx, role, name, init, rng, op=op)
+    # cells are independent sessions: run them on a few workers, each with its own generator derived from the seed
+    import random
+    from concurrent.futures import ThreadPoolExecutor
+
+    def one(item):
+        i, (role, name, init, op, switch, split) = item
+        return guarded_cell(ctx, role, name, init, random.Random("C11-%d-cell-%d" % (ctx.seed, i)), op=op,
+                            switch=switch, split=split)
+
+    with ThreadPoolExecutor(max_workers=3) as ex:
+        observed = list(ex.map(one, list(enumerate(plan))))
+    for (role, name, init, op, switch, split), obs in zip(plan, observed):
         if obs is None:
             continue
         obs["ulocked"] = op in locked_ops
-        ctx.count((role, name, init, op, tuple(obs["out"])), nontrivial=True, kind="%s-%s-%s" % (name, op, init))
+        ctx.count((role, name, init, op, switch, split, tuple(obs["out"])), nontrivial=True,
+                  kind="%s-%s-%s%s%s" % (name, op, init, "-presend" if switch == "presend" else "",
+                                         "-split" if split else ""))
         judge(ctx, obs)
         results.append(obs)
     ctx.log("%d cells in %.1fs" % (len(results), time.time() - t0))
@@ -804,7 +874,8 @@ def replay(ctx, rep):
         return run(ctx)
     ctx.prove()
     for k in range(2):
-        obs = guarded_cell(ctx, case["role"], case["cell"], case["init"], ctx.rng, op=case.get("op", "send"))
+        obs = guarded_cell(ctx, case["role"], case["cell"], case["init"], ctx.rng, op=case.get("op", "send"),
+                           switch=case.get("switch", "kexinit"), split=case.get("split", 0))
         if obs is not None:
             ctx.count(("replay", k, tuple(obs["out"])))
             judge(ctx, obs)
